@@ -1203,6 +1203,110 @@ theorem add_attacker_error_fresh (s : H) (a : ARef) (aid : Option Int) (entry re
     · rw [(aaResolve_eq_none s entry).2 hu]
       cases aaResolve s reached <;> rfl
 
+namespace TG
+
+theorem addAttackerObj_eq (s : St) (a : Nat) (id : Option Int) (e r : List Int) :
+    addAttackerObj s a id e r =
+      if dget s.attIdx (s.aobj a).id = some a then .error .valueError else
+      if (dget s.attIdx (id.getD s.nextAtt)).isSome then .error .valueError else
+      if !(r.all (fun i => (getNodeById s i).isSome) && e.all (fun i => (getNodeById s i).isSome)) then
+        .error .attackGraphException else
+      let s0 : St := { s with aobj := fun x => if x = a then { s.aobj a with id := id.getD s.nextAtt } else s.aobj x
+                              nextAtt := max (id.getD s.nextAtt + 1) s.nextAtt }
+      let s2 := e.foldl (aaEntry a) (r.foldl (aaReach a) s0)
+      .ok (withAtt s2 (s2.attackers ++ [a]) (dset s2.attIdx (id.getD s.nextAtt) a)) := rfl
+
+theorem attIsPart_abs (s : H) (a : ARef) (nf af : Nat) (hid : (s.a a).id.isSome = true) :
+    (attIsPart s a = true) ↔ dget (absS s nf af).attIdx ((absS s nf af).aobj a).id = some a := by
+  obtain ⟨k, hk⟩ := Option.isSome_iff_exists.1 hid
+  rw [attIsPart_iff]
+  show _ ↔ dget s._id_to_attacker ((s.a a).id.getD 0) = some a
+  rw [hk, ← dictGet_eq_dget]
+  constructor
+  · rintro ⟨k', h1, h2⟩; cases h1; exact h2
+  · intro h; exact ⟨k, rfl, h⟩
+
+theorem absS_aaS1_obj (s : H) (a : ARef) (k : Int) (nf af : Nat) :
+    absS (aaS1 s a k) nf af =
+      { absS s nf af with aobj := fun x => if x = a then { absA (s.a a) with id := k } else absA (s.a x)
+                          nextAtt := max (k + 1) s.next_attacker_id } := by
+  have ha : ∀ x, (aaS1 s a k).a x = if x = a then { s.a a with id := some k } else s.a x := fun _ => rfl
+  unfold absS
+  simp only
+  congr 1
+  · funext x
+    rw [ha]
+    by_cases hx : x = a
+    · rw [if_pos hx, if_pos hx]; rfl
+    · rw [if_neg hx, if_neg hx]
+  · show max (optIntGet ((aaS0 s a k).a a).id + 1) s.next_attacker_id = _
+    have : ((aaS0 s a k).a a).id = some k := by
+      show (if a = a then _ else _ : PyAttacker).id = _
+      rw [if_pos rfl]
+    rw [this]; rfl
+
+/-- the abstraction of the heap after a successful `add_attacker` on an attacker object that exists already -/
+theorem absS_aaApply_obj (s : H) (a : ARef) (k : Int) (entry reached : List Int) (rn en : List NRef) (nf af : Nat)
+    (hr : aaResolve s reached = some rn) (he : aaResolve s entry = some en) :
+    absS (aaApply s a k rn en) nf af =
+      (let s2 := entry.foldl (aaEntry a) (reached.foldl (aaReach a) (absS (aaS1 s a k) nf af))
+       withAtt s2 (s2.attackers ++ [a]) (dset s2.attIdx k a)) := by
+  have h0 : (absS (aaS1 s a k) nf af).idIdx = s._id_to_node := rfl
+  have e1 := foldl_aaReach_resolve a s reached rn hr _ h0
+  have h1 : (reached.foldl (aaReach a) (absS (aaS1 s a k) nf af)).idIdx = s._id_to_node :=
+    foldl_inv (fun t : St => t.idIdx = s._id_to_node) _ _ _ (fun t i _ ht => by rw [(aaReach_frame a t i).idIdx, ht]) h0
+  have e2 := foldl_aaEntry_resolve a s entry en he _ h1
+  have hid : ((List.foldl (aaEntry a) (List.foldl (aaReach a) (absS (aaS1 s a k) nf af) reached) entry).aobj a).id = k := by
+    refine foldl_inv (fun t : St => (t.aobj a).id = k) _ _ _ (fun t i _ ht => by rw [aaEntry_aid, ht]) ?_
+    refine foldl_inv (fun t : St => (t.aobj a).id = k) _ _ _ (fun t i _ ht => by rw [aaReach_aid, ht]) ?_
+    show (absA (if a = a then _ else _ : PyAttacker)).id = _
+    rw [if_pos rfl]; rfl
+  have habs : absS (en.foldl (aaPush a) (rn.foldl (aaComp a) (aaS1 s a k))) nf af =
+      entry.foldl (aaEntry a) (reached.foldl (aaReach a) (absS (aaS1 s a k) nf af)) := by
+    rw [absS_foldl_aaPush, absS_foldl_aaComp, e2, e1]
+  have : ∀ t : H, absS (aaFin a t) nf af =
+      withAtt (absS t nf af) ((absS t nf af).attackers ++ [a]) (dset (absS t nf af).attIdx ((absS t nf af).aobj a).id a) := by
+    intro t; unfold aaFin; rw [dictSet_eq_dset]; rfl
+  unfold aaApply
+  rw [this, habs, hid]
+
+end TG
+/-- `add_attacker(attacker, ..)` for an attacker object that has been given an id before (e.g. the object handed to
+`add_attacker` a second time) is `AGS.addAttackerObj`: the same calls are rejected, with the same kind of exception,
+the others have the same effect -/
+theorem add_attacker_obj_tie (s : H) (a : ARef) (aid : Option Int) (entry reached : List Int) (nf af : Nat)
+    (hid : (s.a a).id.isSome = true) :
+    (∀ s', graph_add_attacker s a aid entry reached = .ok s' →
+      addAttackerObj (absS s nf af) a aid entry reached = .ok (absS s' nf af)) ∧
+    (graph_add_attacker s a aid entry reached = .error .valueError →
+      addAttackerObj (absS s nf af) a aid entry reached = .error .valueError) ∧
+    (graph_add_attacker s a aid entry reached = .error .attackGraphException →
+      addAttackerObj (absS s nf af) a aid entry reached = .error .attackGraphException) ∧
+    (∀ e, graph_add_attacker s a aid entry reached = .error e → e = .valueError ∨ e = .attackGraphException) := by
+  have hp := attIsPart_abs s a nf af hid
+  have hk : aid.getD (absS s nf af).nextAtt = aaKey s aid := (aaKey_eq s aid).symm
+  rw [graph_add_attacker_eq, addAttackerObj_eq, hk, ← aaResolve_all, ← aaResolve_all]
+  by_cases h1 : attIsPart s a = true
+  · rw [if_pos h1, if_pos (hp.1 h1)]
+    exact ⟨fun _ h => (by cases h), fun _ => rfl, fun h => (by cases h), fun e h => (by cases h; exact Or.inl rfl)⟩
+  rw [if_neg h1, if_neg (fun h => h1 (hp.2 h))]
+  by_cases h2 : dictIn s._id_to_attacker (aaKey s aid) = true
+  · rw [if_pos h2, if_pos (by rw [← dictIn_eq_dget]; exact h2)]
+    exact ⟨fun _ h => (by cases h), fun _ => rfl, fun h => (by cases h), fun e h => (by cases h; exact Or.inl rfl)⟩
+  rw [if_neg h2, if_neg (by rw [← dictIn_eq_dget]; exact h2)]
+  cases hr : aaResolve s reached with
+  | none =>
+    exact ⟨fun _ h => (by cases h), fun h => (by cases h), fun _ => rfl, fun e h => (by cases h; exact Or.inr rfl)⟩
+  | some rn =>
+    cases he : aaResolve s entry with
+    | none =>
+      exact ⟨fun _ h => (by cases h), fun h => (by cases h), fun _ => rfl, fun e h => (by cases h; exact Or.inr rfl)⟩
+    | some en =>
+      refine ⟨fun s' h => ?_, fun h => (by cases h), fun h => (by cases h), fun e h => (by cases h)⟩
+      cases h
+      rw [absS_aaApply_obj s a _ entry reached rn en nf af hr he, absS_aaS1_obj]
+      rfl
+
 theorem attIsPart_fresh (s : H) (a : ARef) (nf : Nat) (hc : Consistent (absS s nf a)) : attIsPart s a = false := by
   cases h : attIsPart s a with
   | false => rfl
